@@ -205,7 +205,8 @@ def run_scheduled(argv, schedule=None, trigger=None, age=None):
         try:
             res = None
             def trig(ev, ctx):
-                sch.counters['pops' if ev[0] == 'POP' else 'guesses'] += 1
+                if ev[0] in ('POP', 'GUESS'):
+                    sch.counters['pops' if ev[0] == 'POP' else 'guesses'] += 1
                 if trigger:
                     trigger(ev, ctx)
             res = session.run_main(argv, trigger=trig, stdin=st, close_stdin_at_end=False, keep_input=True)
